@@ -415,7 +415,13 @@ def xform_check(ctx, kind, case, model, samples, threshold=None, paths=None):
         ctx.hit(f"xform:{fn}-keeps-%s" % ("all" if all(len(s.kwargs) == len(keys) for s in red.sample_list) else
                                           "none" if all(not s.kwargs for s in red.sample_list) else "some"))
     # -- summary -----------------------------------------------------------------------------------------
-    summ = samples.summary()
+    try:
+        summ = samples.summary()
+    except Exception as e:
+        # SamplesPDF.summary() also computes the median PDF, which has no value for degenerate weights (all zero,
+        # NaN): not a matter of this property; the conversions' own summaries are required by `finish_case`
+        ctx.hit(f"xform:summary-raises:{type(e).__name__}")
+        return
     if summ.max_log_likelihood_sample is not samples.max_log_likelihood_sample:
         ctx.fail(f"C05-{kind}-summary-best", f"{kind}: summary() does not carry the maximum likelihood sample", case, {})
 
@@ -463,7 +469,7 @@ def synth_xform(ctx, prog, model, analysis, arrays=None):
 def run_more(ctx):
     """the cases of this module (called from c05.run after the conversion loop)"""
     rng = ctx.rng
-    n = ctx.n(120, 2400)
+    n = ctx.n(120, 1200)
     kinds = list(KINDS) + ["xform"]
     for k in range(n):
         kind = kinds[k % len(kinds)]
